@@ -51,12 +51,16 @@ func Compare(slice []any, i int, j int, orderBy OrderByDefinition) (bool, error)
 	if err != nil {
 		return false, err
 	}
-	if first == nil {
-		return false, nil
-	}
 	second, err := sortKey(slice[j], key)
 	if err != nil {
 		return false, err
+	}
+	// two rows without this key tie on it: the next key decides
+	if first == nil && second == nil {
+		return Compare(slice, i, j, orderBy[1:])
+	}
+	if first == nil {
+		return false, nil
 	}
 	if second == nil {
 		return true, nil
